@@ -67,11 +67,18 @@ def c15(tier):
     B = ['days_to_date/bound', 'date_to_days', 'spec_rd/uf'] + KERNELS
     signs = [{'d': (-2**31, -2)}, {'d': (-1, 1)}, {'d': (2, 2**31 - 1)}]
     dt_date_setters = [Ob(f, abstractions=(['days_to_date/bound'] + KERNELS) if 'day_of_year' in f else B, slices=signs, timeout=(900 if 'day_of_year' in f and tier != 'thorough' else None),
+                          profiles=(('on',) if tier != 'thorough' else ('on', 'off')),     # (C09 runs both profiles of these in both tiers)
                           note='DateTime date setters under any offset, range ends included (shared with C09): Ok exactly when the edited local date exists and is representable')
                        for f in ('c09_dt_set_year_holds', 'c09_dt_set_month_holds', 'c09_dt_set_day_holds', 'c09_dt_set_day_of_year_holds')]
     return [Ob('c01_days_to_date_holds', slices=[{'d': (-2**31, -1)}, {'d': (0, 2**31 - 1)}], note='contract of days_to_date used below'),
             Ob('c01_date_to_days_holds', note='contract of date_to_days used below')] + kernel_obs() + dt_date_setters + \
-           [Ob(f, abstractions=A if '_date_set_' in f else ()) for f in fns_of('c15_', 'c15.rs')]
+           [Ob(f, abstractions=A if '_date_set_' in f else (), slices=_c15_slices(f)) for f in fns_of('c15_', 'c15.rs')]
+
+def _c15_slices(f):
+    # the two slowest obligations are split by the sign of the year / day number (shorter, steadier queries under load)
+    if f == 'c15_date_from_ymd_ranges_holds': return [{'y': (-2**31, -1)}, {'y': (0, 2**31 - 1)}]
+    if f == 'c15_date_set_day_of_year_holds': return [{'d': (-2**31, -1)}, {'d': (0, 2**31 - 1)}]
+    return None
 
 def c05(tier):
     A = ['days_to_date']
@@ -228,7 +235,7 @@ def c18(tier):
                   note='daylight time exactly between the two rule instants, either order (hemisphere), for any values of the instants'))
     obs.append(Ob('c18_alt_after_table_holds', abstractions=['rule_to_local_timestamp/uf'], unwind=14, validate=False,
                   note='table + alternating rule: the table answers between its transitions, the rule from the last transition on'))
-    pairs = [(0, 1)] if not thorough else [(0, 1), (1, 0), (0, 0), (1, 1), (1, 2)]
+    pairs = [(0, 1)] if not thorough else [(0, 1), (1, 0), (0, 0), (1, 1)]
     obs.append(Ob('c18_alt_offset_holds', abstractions=R, unwind=14, slices=[{'k1': (a, a), 'k2': (b, b)} for a, b in pairs], timeout=900 if not thorough else 2400, validate=False,
                   note='end to end on some rule-kind pairs: standard/daylight switching at the reference instants, IANA-shaped rules'))
     return obs
